@@ -81,6 +81,17 @@ def supply_kwargs(ax, rule, fv, supply, axes=("X",)):
         # the same two objects for every Grid of this process (a caller's settings re-used with several grids): whatever a
         # call does with them must not reach the next Grid
         return dict(periodic=False, boundary=rule, fill_value=fv), dict(boundary=_SHARED_OTHER[decoy_rule], fill_value=_SHARED_OTHER["fv"])
+    if supply == "gridrule+callfv":
+        # the rule comes from the Grid, the call gives only a fill value (inert unless the rule is fill)
+        return dict(periodic=False, boundary=rule, fill_value=99.0), dict(fill_value=fv)
+    if supply == "gridrule+callfvmap":
+        return dict(periodic=False, boundary=rule, fill_value=99.0), dict(fill_value={ax: fv})
+    if supply == "gridfv+callrule":
+        # the fill value comes from the Grid, the call gives only the rule
+        return dict(periodic=False, boundary=decoy_rule, fill_value=fv), dict(boundary=rule)
+    if supply == "default+callfv":
+        assert rule == "periodic"
+        return dict(periodic=True), dict(fill_value=5.0)
     if supply == "default":
         assert (rule, fv) in (("periodic", 0.0), ("fill", 0.0))
         return dict(periodic=(rule == "periodic")), {}
@@ -88,7 +99,9 @@ def supply_kwargs(ax, rule, fv, supply, axes=("X",)):
 
 
 def supplies_for(rule, fv):
-    s = ["call", "callmap", "grid", "gridmap", "grid+othermap"]
+    s = ["call", "callmap", "grid", "gridmap", "grid+othermap", "gridrule+callfv", "gridrule+callfvmap", "gridfv+callrule"]
+    if rule == "periodic":
+        s.append("default+callfv")
     if (rule, fv) in (("periodic", 0.0), ("fill", 0.0)):
         s.append("default")
     return s
